@@ -82,7 +82,7 @@ func TestVerifC12Gate(t *testing.T) {
 	const envKey = "OTEL_GO_X_CARDINALITY_LIMIT"
 	t.Setenv(envKey, "")
 	ctx := context.Background()
-	wait := 8 * time.Millisecond
+	wait := 12 * time.Millisecond
 
 	run := func(gen, lim, tps, istr, vstr string, ops [][]string) {
 		if lim == "-" {
@@ -203,7 +203,7 @@ func TestVerifC12Gate(t *testing.T) {
 						}
 						select {
 						case <-ch:
-						case <-time.After(20 * time.Second):
+						case <-time.After(300 * time.Second):
 							hang = true
 						}
 					}
